@@ -3,8 +3,8 @@ CONSTANTS
   Family = "deep"
   Tier = "thorough"
   Depths = {10, 100, 200, 300, 400}
-  Lengths = {1, 100, 1000, 3000}
-  CallDepths = {60, 200}
+  Lengths = {1, 100, 1000}
+  CallDepths = {60, 150}
 INIT DInit
 NEXT DNext
 INVARIANT DEmit
